@@ -11,6 +11,7 @@ import ActsModel.Driver.Admit
 import ActsModel.Driver.Op
 import ActsModel.Driver.Progress
 import ActsModel.Driver.Ref
+import ActsModel.Driver.Hier
 open Lean Acts.Driver
 
 def dispatch (req : Lean.Json) : Lean.Json :=
@@ -30,6 +31,7 @@ def dispatch (req : Lean.Json) : Lean.Json :=
   | "op.run" => opRun req
   | "c01.monitor" => progressCase req
   | "ref.eval" => refCase req
+  | "c03.monitor" => hierCase req
   | "ping" => Lean.Json.mkObj [("pong", Lean.Json.bool true)]
   | c => Lean.Json.mkObj [("error", Lean.Json.str s!"unknown cmd {c}")]
 
